@@ -165,6 +165,7 @@ class FunctionDefinition:
                 p.position += 1
 
     def map_args(self, args, kwargs, context, engine):
+        supplied_kwargs = kwargs
         kwargs = dict(kwargs)
         positional_args = len(args) * [
             self.parameters.get('*', utils.NO_VALUE)]
@@ -222,9 +223,11 @@ class FunctionDefinition:
                 value = positional_args[i].default
             if not positional_args[i].value_type.check(value, context, engine):
                 return None
-        for kwd in kwargs:
+        # every keyword argument - matched by name above or collected by
+        # ** - is checked like a positional one
+        for kwd in keyword_args:
             if not keyword_args[kwd].value_type.check(
-                    kwargs[kwd], context, engine):
+                    supplied_kwargs[kwd], context, engine):
                 return None
 
         return tuple(positional_args), keyword_args
